@@ -92,7 +92,8 @@ def leaves(expr):
 
 
 class Denoter:
-    def __init__(self, family, ref=None, alt=None, do_env=None, literal_subscripts=False, sum_binds_subscripts=True):
+    def __init__(self, family, ref=None, alt=None, do_env=None, literal_subscripts=False, sum_binds_subscripts=True,
+                 plus_literal=False):
         if not isinstance(family, dict):
             family = {TARGET: family}
         self.family = family
@@ -102,6 +103,7 @@ class Denoter:
         self.do_env = do_env or {}
         self.literal = literal_subscripts
         self.sum_binds = sum_binds_subscripts
+        self.plus_literal = plus_literal  # a '+' subscript is always the literal alternative value
         self._memo: dict = {}
         self.bound_stack: list[set] = []
 
@@ -123,7 +125,9 @@ class Denoter:
             return ()
         do = {}
         for i in v.interventions:
-            if i.name in bound and self.sum_binds:
+            if self.plus_literal and i.star:
+                do[i.name] = self._star_value(i.name, True)
+            elif i.name in bound and self.sum_binds:
                 do[i.name] = env[i.name]
             elif not self.literal and i.name in self.do_env:
                 do[i.name] = self.do_env[i.name]
